@@ -117,10 +117,14 @@ def fid(k):
     return IDS[k % len(IDS)] + 100 * (k // len(IDS))
 
 
+class _LeaveBlock(Exception):
+    pass
+
+
 ALPHABETS = {
     # C07: unidentified store, list model
     'c07': ['create_file:S', 'create_file:L', 'create_mem:S', 'create_mem:L', 'add', 'read:0', 'read:mid',
-            'read:last', 'read:end', 'iter', 'len', 'sync', 'close', 'append:S', 'append:L', 'open:S',
+            'read:last', 'read:end', 'iter', 'len', 'sync', 'close', 'close:exc', 'append:S', 'append:L', 'open:S',
             'open:L', 'save', 'save_bad'],
     # C07 with every trajectory split over a base and an associated file (+ species-rejected additions)
     'c07a': ['create_file:S', 'create_file:L', 'add', 'add_bad_species', 'read:0', 'read:last', 'read:end', 'iter', 'sync', 'close',
@@ -129,9 +133,9 @@ ALPHABETS = {
              'iter', 'sync', 'close', 'append:S', 'append:L', 'open:S', 'save', 'save_bad'],
     # C08: identified store, dict model
     'c08': ['create_file:S', 'create_file:L', 'create_mem:L', 'save', 'add', 'add_bad_ident', 'get:first', 'get:last', 'get:absent',
-            'read:0', 'sync', 'close', 'append:S', 'append:L', 'open:S', 'open:L'],
+            'read:0', 'sync', 'close', 'close:exc', 'append:S', 'append:L', 'open:S', 'open:L'],
     'c08q': ['create_file:S', 'create_file:L', 'create_mem:L', 'save', 'add', 'add_bad_ident', 'get:first', 'get:last', 'get:absent',
-             'sync', 'close', 'append:S', 'open:S'],
+             'sync', 'close', 'close:exc', 'close:with', 'append:S', 'open:S'],
     # C08 on unidentified files: identified additions must be refused
     'c08u': ['create_file:L', 'add', 'add_bad_ident', 'close', 'append:S', 'append:L', 'open:L', 'read:0'],
     # C10a: rejected additions at every position
@@ -374,7 +378,18 @@ class StoreDriver:
                 store.sync()
                 return ('ok', None), store
             if op == 'close':
-                store.close()
+                how = ev.split(':')[1] if ':' in ev else 'call'
+                if how == 'call':
+                    store.close()
+                elif how == 'with':  # leaving a with-block normally
+                    with store:
+                        pass
+                else:  # 'exc': leaving a with-block by an exception of the caller's own
+                    try:
+                        with store:
+                            raise _LeaveBlock()
+                    except _LeaveBlock:
+                        pass
                 return ('ok', None), None
             if op == 'save_bad':
                 taken = path.parent / 'taken.nc'
